@@ -3,6 +3,7 @@ package checks
 import (
 	"encoding/json"
 	"fmt"
+	"sort"
 	"testing"
 
 	"pgregory.net/rapid"
@@ -18,11 +19,22 @@ import (
 // one IF bit cleared; after an instruction it checks that IF is untouched.
 
 var c04Rig *cpuRig
+var c04VecRigs = map[string]*cpuRig{}
 
 func c04Policy() lsPolicy { return lsPolicy{allowIF: true, checkIRQ: true} }
 
 func c04Run(cas *lsCase) (st lsStats, sig string, err error) {
 	defer vf.Recover(&sig, &err)
+	if len(cas.Vec) > 8 {
+		return st, "invalid-case", fmt.Errorf("at most 8 bytes fit at a vector")
+	}
+	if len(cas.Vec) > 0 {
+		key := string(cas.Vec)
+		if c04VecRigs[key] == nil {
+			c04VecRigs[key] = newLockstepRigROM(lsVecROM(cas.Vec))
+		}
+		return c04VecRigs[key].lockstep(cas, c04Policy())
+	}
 	if c04Rig == nil {
 		c04Rig = newLockstepRig()
 	}
@@ -61,7 +73,7 @@ var c04Follow = [][]byte{{0x00}, {0x3c}, {0xfb}, {0xf3}, {0xd9}, {0x3e, 0x1f, 0x
 func TestC04(t *testing.T) {
 	c := vf.New(t, "C04", "(a) every IE (256) x IF (32) x IME (2) at an instruction boundary followed by each of 7 instruction kinds (NOP, INC A, EI, DI, RETI, a write to IF, HALT) and a second request raised at a varying machine cycle; "+
 		"(b) rapid programs over EI/DI/RETI/NOP/INC/LD/writes to IF and IE/PUSH/POP/CALL/RET with handlers at the five vectors and interrupt requests raised at arbitrary machine-cycle offsets, in lock-step with the reference (EI delayed by one instruction, DI and RETI immediate); "+
-		"(c) verdicts of blargg cpu_instrs 02-interrupts and the mooneye intr/ei/reti ROMs. Non-trivial: the history contains a dispatch, or an EI executed with a request pending at the following boundary; distinct by case hash / by (IE, IF, IME, follow) in (a).")
+		"(a2) back-to-back re-entry: 5 bits x 6 short handlers x the same request raised again while the handler runs; (c) verdicts of blargg cpu_instrs 02-interrupts and the mooneye intr/ei/reti ROMs. Non-trivial: the history contains a dispatch, or an EI executed with a request pending at the following boundary; distinct by case hash / by (IE, IF, IME, follow) in (a).")
 	defer c.Flush()
 	c.RunReplays()
 	if c.Env.Shard == 0 {
@@ -119,6 +131,53 @@ func TestC04(t *testing.T) {
 		c.Exhaustive("all 256 IE x 32 IF x 2 IME at a boundary x 7 following instruction kinds")
 	})
 
+	// back-to-back re-entry: the request is raised again while its (very short) handler runs, so the dispatch that
+	// follows the handler's last instruction goes to the vector just left - the same instruction at the same address
+	// is fetched twice with nothing but a dispatch in between
+	c.Sub("re-entry", func(t *testing.T) {
+		handlers := [][]byte{{0xd9}, {0x00, 0xd9}, {0xfb, 0xd9}, {0xfb, 0xc9}, {0xfb, 0x00, 0xc9}, {0x3c, 0xd9}}
+		var n, nt int64
+		idx := 0
+		for bit := 0; bit < 5; bit++ {
+			for hi, h := range handlers {
+				for e1 := 0; e1 <= 14; e1++ {
+					for d := 1; d <= 14; d++ {
+						idx++
+						if !c.Env.Mine(idx) {
+							continue
+						}
+						cas := lsCase{R: refcpu.Regs{A: 0x11, F: 0x00, B: 0xd4, C: 0x10, D: 0xd5, E: 0x20, H: 0xd6, L: 0x30, SP: 0xdfe0, PC: 0xc000},
+							IME: true, IE: 0x1f, IF: 1 << uint(bit), MaxCycles: 70}
+						cas.Code = []byte{0x00, 0x3c, 0x00, 0x04, 0x00, 0x3c, 0x00, 0x04, 0x00, 0x00, 0x00, 0x00, 0x00, 0x00, 0x00, 0x00}
+						for i := range cas.Handlers {
+							cas.Handlers[i] = []byte{0x0c, 0xd9}
+						}
+						cas.Handlers[bit] = h
+						if (e1+d)%2 == 1 {
+							cas.Vec = h // the handler itself at the vector: dispatch, X at V, dispatch, X at V ...
+						}
+						cas.Events = []lsEvent{{Cycle: e1, Bit: bit}, {Cycle: e1 + d, Bit: bit}, {Cycle: e1 + 2*d, Bit: (bit + hi) % 5}}
+						st, sig, err := c04Run(&cas)
+						n++
+						if st.Dispatches >= 2 {
+							nt++
+						}
+						if n%997 == 1 {
+							c.Sample("re-entry", cas)
+						}
+						if err != nil {
+							if known, first := c.FailFirst("irq", sig, err.Error(), cas); !known && first {
+								t.Errorf("%v", err)
+							}
+						}
+					}
+				}
+			}
+		}
+		c.Bulk("re-entry", n, nt)
+		c.Exhaustive("5 request bits x 6 short handlers (RETI alone, NOP RETI, EI RETI, EI RET, EI NOP RET, INC A RETI) x the same request raised again at cycle e1 (0-14), e1+d and e1+2d (d 1-14); in half of the cases the handler sits at the vector itself (in the cartridge) instead of behind a JP")
+	})
+
 	c.Rapid("programs", 30000, 600000, func(rt *rapid.T) {
 		fl := lsFlavour{irq: 14, flow: 3, mem: 2, raw: 1}
 		cas := lsCase{R: lsGenRegs(rt), IME: rapid.Bool().Draw(rt, "ime"), IE: rapid.Byte().Draw(rt, "ie"), IF: rapid.Byte().Draw(rt, "if") & 0x1f,
@@ -131,6 +190,15 @@ func TestC04(t *testing.T) {
 		cas.Handlers, subs = lsGenHandlers(rt, lsFlavour{irq: 10})
 		cas.Pokes = append(lsStackFill(rt, len(cas.Code)), subs...)
 		cas.Events = lsGenEvents(rt, cas.MaxCycles, 12)
+		if rapid.IntRange(0, 4).Draw(rt, "burst") == 0 {
+			// one source keeps asking: the same bit every g cycles
+			bit, g, at := rapid.IntRange(0, 4).Draw(rt, "burst-bit"), rapid.IntRange(1, 12).Draw(rt, "burst-gap"), rapid.IntRange(0, cas.MaxCycles-1).Draw(rt, "burst-at")
+			for i := 0; i < 12 && at < cas.MaxCycles; i, at = i+1, at+g {
+				cas.Events = append(cas.Events, lsEvent{Cycle: at, Bit: bit})
+			}
+			sort.SliceStable(cas.Events, func(i, j int) bool { return cas.Events[i].Cycle < cas.Events[j].Cycle })
+			c.Class("program-with-request-burst", 1)
+		}
 		st, sig, err := c04Run(&cas)
 		nt := st.Dispatches > 0 || st.PendingAtEI > 0
 		class := "program"
